@@ -113,7 +113,8 @@ Example C06_quote_hypotheses_met :
 Proof. exact quote_line_example. Qed.
 
 (* ---- containers within containers, any depth ----
-   For EVERY list cs of containers - block quote markers "> " and bullet markers "- " in any order - whose weight
+   For EVERY list cs of containers - block quote markers "> " and bullet markers ('-', '*' or '+' followed by one to
+   four spaces: okc) in any order - whose weight
    (1 per quote, 2 per item) stays below maxNesting, every line s of the class above, every configuration whose block
    chain is  table/code/fence*  blockquote  table/code/fence/hr*  list  (rules other than paragraph)*  paragraph ...,
    any inline configuration and any env:  parse(prefix(cs) s LF)  is the paragraph of s wrapped in exactly those
@@ -130,7 +131,7 @@ Theorem C06_containers_within_containers :
     Forall (fun n => n = nm_table \/ n = nm_code \/ n = nm_fence \/ n = nm_hr) RB ->
     Forall (fun n => str_eqb n nm_paragraph = false) RC ->
     p_core cfg = [n_normalize; n_block; n_inline; n_text_join] ->
-  forall cs, weight cs < c_maxNesting (p_block cfg) ->
+  forall cs, Forall okc cs -> weight cs < c_maxNesting (p_block cfg) ->
   forall env,
     parse cfg rf cf lt (prefix cs ++ s ++ [10]) env
     = (do toks <- inline_parse (p_inline cfg) rf cf lt s env [];
@@ -140,11 +141,14 @@ Print Assumptions C06_containers_within_containers.
 
 (* what wrapc says, for reading the theorem: one more container = the same tokens one (quote) or two (item) levels deeper *)
 Definition C06_wrapc_means :
-  forall s cs lv hid ch,
+  forall s cs m k lv hid ch,
     wrapc s (CQ :: cs) lv hid ch = bq_open_at lv :: wrapc s cs (lv + 1) false ch ++ [bq_close_at lv]
-    /\ wrapc s (CI :: cs) lv hid ch = ul_open_at lv :: li_open_at (lv + 1) :: wrapc s cs (lv + 2) true ch ++ [li_close_at (lv + 1); ul_close_at lv]
-    /\ wrapc s [] lv false ch = para_ch s lv ch
-  := fun s cs lv hid ch => conj eq_refl (conj eq_refl eq_refl).
+    /\ wrapc s (CI m k :: cs) lv hid ch
+       = ul_open_at m lv :: li_open_at m (lv + 1) :: wrapc s cs (lv + 2) true ch ++ [li_close_at m (lv + 1); ul_close_at m lv]
+    /\ wrapc s [] lv false ch = para_ch s lv ch /\ wrapc s [] lv true ch = hide_para (para_ch s lv ch)
+    /\ prefix (CQ :: cs) = [62; 32] ++ prefix cs /\ prefix (CI m k :: cs) = (m :: repeat 32 k) ++ prefix cs
+    /\ (okc (CI m k) <-> (m = 42 \/ m = 45 \/ m = 43) /\ (1 <= k <= 4)%nat)
+  := fun s cs m k lv hid ch => conj eq_refl (conj eq_refl (conj eq_refl (conj eq_refl (conj eq_refl (conj eq_refl (conj (fun x => x) (fun x => x))))))).
 
 (* the nested block loop, for any containers in front of the rest of the line, from any well-placed state *)
 Theorem C06_nested_loop_any_containers :
@@ -153,7 +157,7 @@ Theorem C06_nested_loop_any_containers :
     Forall (fun n => n = nm_table \/ n = nm_code \/ n = nm_fence) RA ->
     Forall (fun n => n = nm_table \/ n = nm_code \/ n = nm_fence \/ n = nm_hr) RB ->
     Forall (fun n => str_eqb n nm_paragraph = false) RC ->
-  forall cs pre1 pre2 bs li lv d,
+  forall cs, Forall okc cs -> forall pre1 pre2 bs li lv d,
     (forall x, In x pre2 -> x <> 9) -> lv + weight cs < c_maxNesting cfg -> (length cs <= d)%nat ->
     rec_adds (tokenize cfg rf cf (S d)) pre1 pre2 (prefix cs ++ s) bs li lv (wrap s cs lv false).
 Proof. exact nest. Qed.
@@ -162,6 +166,6 @@ Print Assumptions C06_nested_loop_any_containers.
 Example C06_nested_hypotheses_met :
   [nm_table; nm_code; nm_fence; nm_blockquote; nm_hr; nm_list; nm_reference; nm_html_block; nm_heading; nm_lheading; nm_paragraph]
   = [nm_table; nm_code; nm_fence] ++ nm_blockquote :: [nm_hr] ++ nm_list :: [nm_reference; nm_html_block; nm_heading; nm_lheading] ++ nm_paragraph :: []
-  /\ prefix [CQ; CI; CQ] ++ [102; 111; 111] ++ [10] = [62; 32; 45; 32; 62; 32; 102; 111; 111; 10]
-  /\ weight [CQ; CI; CQ] = 4.
+  /\ prefix [CQ; CI 45 1; CI 42 3; CQ] ++ [102; 111; 111] ++ [10] = [62; 32; 45; 32; 42; 32; 32; 32; 62; 32; 102; 111; 111; 10]
+  /\ weight [CQ; CI 45 1; CI 42 3; CQ] = 6 /\ Forall okc [CQ; CI 45 1; CI 42 3; CQ].
 Proof. exact nested_example. Qed.
